@@ -758,6 +758,13 @@ def probe_all():
             if kind in S.WRAP_KINDS and cat in inner_site:
                 # a wrapper consumes no path step: aliasing caused by the option itself belongs to the option's row
                 inner = done.get(inner_site[cat])
+                if cat == "tupl":
+                    # the Tuple option of the wrapper witness on its own (its content is untyped, unlike the tuplePos row's)
+                    bc = S.bare_witness_case(op, cat)
+                    bi = S.run_impl(bc) if bc else {}
+                    bpaths = [list(q) for q in bi.get("shared_paths", [])] if bi.get("ok") else []
+                    inner = {"returns": "fresh" if bi.get("ok") else "raises", "_node_shared": node in bpaths,
+                             "_any_shared": any(q[:len(node)] == node for q in bpaths)}
                 if (inner is None or inner["returns"] == "raises") and op == "fastSerialize":
                     # fast serialization delegates to <field>.serialize: same behaviour where the check at
                     # create_serializer time does not look
